@@ -107,6 +107,7 @@ def r05b(R):
     A = R.A
     seen_creators = 0
     for f in A.repo.all_functions('bardolph.parser'):
+        f = A.normalised(f)      # a marker may be closed by an extracted helper
         starts = A.calls_nodes(f, 'CodeGen.if_true_start')
         if f.cls is not None and f.cls.name == 'CodeGen' and f.name == 'if_true_start':
             continue
@@ -554,8 +555,26 @@ def r05g(R):
             okj, 'the prologue jump at index 0 does not land on the first '
             'main instruction')
     # no-routine shortcut returns the main segment itself
-    short = [n for n in cfg.nodes if n.kind == 'cond' and
-             'len(self._routine_segment) == 0' in norm(n.ast)]
+    ev0 = AffineEval(A, gc, 0, {}, len_syms={'self._routine_segment': S})
+    for st in straight_body(gc):
+        if isinstance(st, ast.Assign) and isinstance(st.targets[0], ast.Name) \
+                and not isinstance(st.value, ast.List):
+            try:
+                ev0.stmt(st)
+            except NotAffine:
+                pass
+
+    def empty_test(e):
+        if isinstance(e, ast.Compare) and len(e.ops) == 1 \
+                and isinstance(e.ops[0], ast.Eq):
+            try:
+                sides = [as_lin(ev0.ev(e.left)), as_lin(ev0.ev(e.comparators[0]))]
+            except NotAffine:
+                return False
+            return (sides[0] == S and sides[1] == Lin.const(0)) or \
+                (sides[1] == S and sides[0] == Lin.const(0))
+        return False
+    short = [n for n in cfg.nodes if n.kind == 'cond' and empty_test(n.ast)]
     R.check(gc, 'no routines -> main segment unchanged', bool(short) and any(
         norm(r.ret_expr) == 'self._main_segment' for r in cfg.return_nodes()
         if r.ret_expr is not None), 'without routines the image must be the '
